@@ -485,8 +485,8 @@ pub fn gen_layout_script(id: usize, rng: &mut Sm, numpy_env: bool, st: &mut Layo
     let coarse = rng.chance(0.08);
     let tick = if coarse { rng.range((1u64 << 32) / 13, (u32::MAX as u64) / 9) as u32 } else { rng.range(1, 10) as u32 };
     let t0 = rng.below(1000);
-    // one script in sixteen runs with a degenerate step size (0, 1 or 2 time units per step) and at most step_size + 1
-    // instructions per step, so that the clock still never moves backwards
+    // one script in sixteen runs with a degenerate step size (0, 1 or 2 time units per step) and at most max(step_size, 1)
+    // instructions per step, so that every time-stamp stays inside its step and the clock never moves backwards
     let tiny = rng.chance(0.06);
     let step_size = if tiny { rng.below(3) } else { *rng.pick(&[64u64, 1000]) };
     if tiny {
@@ -540,7 +540,7 @@ pub fn gen_layout_script(id: usize, rng: &mut Sm, numpy_env: bool, st: &mut Layo
         }
         // asymmetric by construction: different counts and volumes on the two sides, several levels
         let ladder = !quiet && !tiny && rng.chance(0.25);
-        let budget = step_size as usize + 1; // tiny scripts: instructions per step
+        let budget = (step_size as usize).max(1); // tiny scripts: instructions per step (all time-stamps stay inside the step)
         let nb = if quiet { 0 } else if ladder { 12 } else if tiny { rng.range(0, budget as u64) as usize } else { rng.range(0, 7) as usize };
         let na = if quiet { 0 } else if ladder { 12 } else if tiny { budget - nb - if nb < budget && rng.chance(0.3) { 1 } else { 0 } } else { rng.range(0, 7) as usize };
         let mut sides = Vec::new();
@@ -965,8 +965,18 @@ pub fn c19(ctx: &Ctx) -> i32 {
     let mut rng = Sm::derive(ctx.seed, 0xC19);
     let mut scripts = Vec::new();
     let mut st = LayoutStats { bottom_of_range_scripts: 0, top_of_range_scripts: 0, reads_before_first_step: 0, reads_between_submission_and_step: 0, repeated_reads_within_a_step: 0, tiny_step_scripts: 0, coarse_grid_scripts: 0, quiet_steps: 0, steps_that_traded: 0, states: 0, asym_states: 0, keys: Vec::new() };
+    // the generator drives the Rust core (bourse_de::Env) with the same valid call sequence to obtain the Rust-side values: a
+    // panic of the core there is an observed abort on a valid history, reported as such (never a harness crash)
+    let mut core_aborts: Vec<String> = Vec::new();
     for i in 0..n_scripts {
-        scripts.push(gen_layout_script(i, &mut rng, i % 2 == 1, &mut st));
+        match crate::util::catch(|| gen_layout_script(i, &mut rng, i % 2 == 1, &mut st)) {
+            Ok(sc) => scripts.push(sc),
+            Err(p) => {
+                if core_aborts.len() < 3 {
+                    core_aborts.push(format!("script {}: {}", i, p));
+                }
+            }
+        }
     }
     // plus levels holding more than 2^16 orders
     let n_mass = ctx.tier.pick(1, 4);
@@ -982,13 +992,16 @@ pub fn c19(ctx: &Ctx) -> i32 {
     };
     let res = run_python(ctx, &json!({"scripts": scripts, "doc_tables": true}));
     let mut violations = Vec::new();
+    for a in &core_aborts {
+        violations.push(Violation { signature: "C19:abort:core_panicked_on_a_valid_script".into(), summary: format!("the Rust core panicked while it was driven with a valid C19 call sequence: {}", crate::bookcheck::truncate(a, 600)), replay: json!({"kind": "python", "property": "C19", "detail": a}) });
+    }
     let mut inconclusive = None;
     let mut r = json!({});
     match res {
         Err(e) => inconclusive = Some(e),
         Ok(x) => {
             r = x;
-            violations = mismatch_violations("C19", &r, "layout");
+            violations.extend(mismatch_violations("C19", &r, "layout"));
             if let Some(p) = r["doc"]["problems"].as_array() {
                 if !p.is_empty() && violations.is_empty() {
                     inconclusive = Some(format!("the documentation tables changed: {}", crate::bookcheck::truncate(&p[0].to_string(), 500)));
